@@ -205,6 +205,9 @@ def main():
         mc, mu, wf = m
         replay["model"] = {"construct": mc, "use": mu, "wellformed": wf, "term": terms[i]}
         sig_tail = f"{c['ep']}.{short_field(c['field'])}.{c['corr']}" if c["field"] != "-" else f"{c['ep']}.{c['corr']}"
+        # stable signature of a genuine defect: entry point + kind of corruption (position / field stripped)
+        kind = c["corr"].split(".")[-1] if c["ep"] != "error_residual" else "constraint_shape_1"
+        sig_defect = f"C20.{c['ep']}.{kind}"
 
         # ---- (3) the property, directly on the implementation
         if c["ep"] == "warn":
@@ -223,7 +226,7 @@ def main():
             silent = r["construct"] == "accept" and r["use"] in ("numbers", "nonfinite") or \
                 (r["construct"] == "accept" and r["use"] is None and c["ep"] in ("verify",) and False)
             if silent:
-                ck.report(f"C20.{sig_tail}",
+                ck.report(sig_defect,
                           f"malformed input accepted silently and numbers came back: {c['ep']}({c['fact']}) "
                           f"field {c['field']} corruption {c['corr']} of base '{c['base']}' (args {json.dumps(c['args'])[:300]})",
                           replay)
